@@ -426,6 +426,76 @@ def r4_pad_before_store(ctx):
                                      'subscript without a dominating `%s >= length -> return None` test' % idx))
 
 
+WRITERS = {'__init__', 'set', 'append', 'set_value', '__setitem__', 'set_seg_term', 'set_ele_term', 'set_subele_term'}
+MUTATORS = {'append', 'extend', 'insert', 'pop', 'remove', 'clear', 'sort', 'reverse', 'update', 'setdefault', 'popitem'}
+
+
+def r6_reads_do_not_write(ctx):
+    """reading leaves every position unchanged: outside the writing methods (__init__, set, append, set_value, __setitem__,
+    set_*_term) no method of Element / Composite / Segment stores into an attribute of the object, deletes from or
+    mutates a container it holds - neither directly nor through a local that is just another name for that container
+    (`elements = self.elements; del elements[-1]` shortens the object while it is being formatted)"""
+    km = KeyMaker()
+    n = 0
+    for cname in ('Element', 'Composite', 'Segment'):
+        cls = ctx.cls('segment', cname)
+        for f in cls.body:
+            if not isinstance(f, ast.FunctionDef) or f.name in WRITERS:
+                continue
+            f = ctx.func('segment', cname + '.' + f.name)
+            n += 1
+            # locals that are another name for a container of the object (bound to self.X / self.X[i] without a copy)
+            alias = {}
+            for st in ast.walk(f):
+                if isinstance(st, ast.Assign) and len(st.targets) == 1 and isinstance(st.targets[0], ast.Name):
+                    v = st.value
+                    base = v
+                    while isinstance(base, ast.Subscript) and not isinstance(base.slice, ast.Slice):
+                        base = base.value
+                    if isinstance(base, ast.Attribute) and (path_of(base) or '').startswith('self.') and (v is base or isinstance(v, ast.Subscript)):
+                        alias[st.targets[0].id] = norm(v)
+
+            def owned(e):
+                p = path_of(e)
+                if p and p.startswith('self.'):
+                    return p
+                if isinstance(e, ast.Name) and e.id in alias:
+                    return '%s (= %s)' % (e.id, alias[e.id])
+                if isinstance(e, ast.Subscript) and not isinstance(e.slice, ast.Slice):
+                    return owned(e.value)
+                return None
+            bad = None
+            for x in ast.walk(f):
+                tgts = []
+                if isinstance(x, ast.Assign):
+                    tgts = x.targets
+                elif isinstance(x, ast.AugAssign):
+                    tgts = [x.target]
+                elif isinstance(x, ast.Delete):
+                    tgts = x.targets
+                for t in tgts:
+                    if isinstance(t, (ast.Attribute, ast.Subscript)):
+                        o = owned(t.value) if isinstance(t, ast.Subscript) else (path_of(t) if (path_of(t) or '').startswith('self.') else owned(t.value))
+                        if o:
+                            bad = bad or (x, 'stores into %s' % o)
+                if isinstance(x, ast.Call) and isinstance(x.func, ast.Attribute) and x.func.attr in MUTATORS:
+                    o = owned(x.func.value)
+                    if o:
+                        bad = bad or (x, 'calls %s() on %s' % (x.func.attr, o))
+            yield Ob(km('segment:%s.%s does not change the object' % (cname, f.name)), bad is None, ctx.floc(f, bad[0] if bad else f),
+                     '' if bad is None else 'a reading method %s (`%s`): the segment is different after it has been read or formatted' % (bad[1], norm(bad[0], 70)))
+    if n < 30:
+        raise AnalysisError('segment.py: only %d reading methods found' % n)
+
+
+def r7_shared_format(ctx):
+    """a value written at a designator is read back through format / get_value: both print every position up to the last
+    non-empty one (C01.R8, shared)"""
+    from . import c01
+    for o in c01.r8_format_keeps_values(ctx):
+        yield o
+
+
 def r5_map_paths(ctx):
     pat, flags, node = _rec_path(ctx)
     rx = re.compile(pat, flags)
@@ -452,5 +522,7 @@ RULES = [
     Rule('C17.R2', 'printer/parser agreement of format_refdes and __repr__ vs __init__', r2_print_parse, floor=6),
     Rule('C17.R3', 'refusal conditions over all part combinations; foreign segment id refused before index use', r3_refusals, floor=3),
     Rule('C17.R4', 'Segment.set pads before it stores; Segment.get tests each index', r4_pad_before_store, floor=6),
+    Rule('C17.R7', 'shared with C01.R8: format prints every position up to the last non-empty one', r7_shared_format, floor=2),
+    Rule('C17.R6', 'reading methods of Element/Composite/Segment do not modify the object (no store, delete or mutating call, also through aliases)', r6_reads_do_not_write, floor=30),
     Rule('C17.R5', 'every map node path component parses into its own parts', r5_map_paths, floor=2400),
 ]
